@@ -129,6 +129,9 @@ fn supersede(p: &mut Option<Pend>, _grace: &mut Vec<Pend>, _now: u64) {
 pub fn c18(stream: &[(Ev, Vec<Act>)], n_machines: usize) -> (Option<Viol>, u64, u64) {
     let mut timer: Vec<Option<u64>> = vec![None; n_machines];
     let mut tgrace: Vec<Vec<u64>> = vec![vec![]; n_machines];
+    // strict by default: a TimerEnd reported after the event that cancelled / superseded its timer (in trace
+    // order, also at the same time stamp) is a violation; the tolerance was never needed on the unchanged tree
+    let strict = std::env::var("VERIF_C18_LENIENT").is_err();
     let mut must_begin: Vec<u32> = vec![0; n_machines];
     let mut may_begin: Vec<u32> = vec![0; n_machines];
     let mut zero_dur_issued = false;
@@ -193,7 +196,7 @@ pub fn c18(stream: &[(Ev, Vec<Act>)], n_machines: usize) -> (Option<Viol>, u64, 
                     let sets = *replace || timer[*m].is_none() || new > timer[*m].unwrap();
                     if sets {
                         if let Some(x) = timer[*m] {
-                            if x == now {
+                            if x == now && !strict {
                                 tgrace[*m].push(x);
                             }
                         }
@@ -206,7 +209,7 @@ pub fn c18(stream: &[(Ev, Vec<Act>)], n_machines: usize) -> (Option<Viol>, u64, 
                 Act::Cancel { m, timer: tk } => {
                     if *tk != 0 {
                         if let Some(x) = timer[*m].take() {
-                            if x == now {
+                            if x == now && !strict {
                                 tgrace[*m].push(x);
                             }
                         }
